@@ -263,6 +263,8 @@ def run(ctx, name, kind, **kw):
         pairs += [(0, 5), (5, 0), (0, 0), (1, 1), (n - 1, n - 1), (n, 3), (3, n), (n + 1, 2 * n + 1), (-1, 1), (7, -7), (n - 1, 1), (1, n - 1)]
         pairs += [(3, 6 * n + 1), (5, -(7 * n + 5)), (2, 23 * n + 11), (n + 2, 127 * n + 3), (9 * n + 4, 3), (-(31 * n + 1), -(31 * n + 2))]      # multipliers far outside [0, n) on either side
         pairs += [(n + 1, 1), (1, n + 1), (-1, -1), (n + 1, n + 1), (-3, 5), (5, -3), (-4, 1), (-7, -9), (2 * n - 1, 1)]
+        # multipliers of very different sizes (the two digit strings are aligned against each other): a few bits against 540..1300 bits
+        pairs += [(5, (1 << 700) + 3), ((1 << 540), -1), ((1 << 1100) + 1, 7), (3, -((1 << 529) + 5)), ((1 << 1300) - 1, (1 << 600) + 1)]
         for a, b in pairs[kw["si"]:: kw["sl"]]:
             cfp2 = lib.CurveFp(int(cfp.p()), int(cfp.a()), int(cfp.b()), None)      # equal curve (same p, a, b as declared), separate object, no cofactor declared
             a_specs = (("G", lambda: c.generator, G), ("plain", lambda: build(cfp, Pm, "jzr", rng, order=n), Pm), ("noorder", lambda: build(cfp, Pm, "j1", rng, order=None), Pm),
